@@ -113,11 +113,11 @@ def estimator_units(world):
                 want_all.append((jn - lse, jp - lse))
             goal = And(*[And(r[d][0] == want_all[d][0], r[d][1] == want_all[d][1]) for d in range(len(docs))]) if ok and all(
                 isinstance(x, tuple) and len(x) == 2 for x in r) else False
-            cl.append(("posterior-is-joint-minus-log-sum-exp-per-document", ["C16"], goal))
+            cl.append(("posterior-is-joint-minus-log-sum-exp-per-document", ["C16", "C17"], goal))
             return cl
         u = FuncUnit("nb_estimator.MultinomialNaiveBayes.predict_log_probability%s" % (list(shape),),
                      ["nb_estimator.MultinomialNaiveBayes.predict_log_probability", "nb_estimator._log_sum_exp"],
-                     ["C16", "C12", "C14"], setup, call, ens, prop_map={"safety": ["C16", "C14"], "frame": ["C12"]})
+                     ["C16", "C17", "C12", "C14"], setup, call, ens, prop_map={"safety": ["C16", "C14"], "frame": ["C12"]})
         u.bounded_desc = "loops over documents and sparse features unrolled for the document shapes %s (feature indices per document), counts and model parameters symbolic" % (list(shape),)
         return u
     for shape in (((),), ((0, 2),), ((1,), (0, 2)), ((0, 1, 2), ())):
@@ -174,7 +174,7 @@ def estimator_units(world):
             log = w.logf
             ok = isinstance(r, dict) and set(r) == {"negative_class", "positive_class"} and all(len(v) == V for v in r.values())
             if not ok:
-                return [("laplace-smoothed-likelihoods", ["C16"], False)]
+                return [("laplace-smoothed-likelihoods", ["C16", "C17"], False)]
             goal = []
             for cname, cls in (("positive_class", 1), ("negative_class", -1)):
                 cnt = [alpha + sum(z3.If(ys[d] == cls, z3.ToReal(X[d].get(i, 0)) if not isinstance(X[d].get(i, 0), int) else z3.RealVal(X[d].get(i, 0)), z3.RealVal(0))
@@ -182,9 +182,9 @@ def estimator_units(world):
                 tot = sum(cnt)
                 for i in range(V):
                     goal.append(r[cname][i] == log(cnt[i]) - log(tot))
-            return [("laplace-smoothed-likelihoods", ["C16"], And(*goal))]
+            return [("laplace-smoothed-likelihoods", ["C16", "C17"], And(*goal))]
         u = FuncUnit("nb_estimator.MultinomialNaiveBayes._construct_log_likelihood[2 docs,V=3]",
-                     ["nb_estimator.MultinomialNaiveBayes._construct_log_likelihood"], ["C16", "C12"], setup, call, ens,
+                     ["nb_estimator.MultinomialNaiveBayes._construct_log_likelihood"], ["C16", "C17", "C12"], setup, call, ens,
                      prop_map={"safety": ["C16"], "frame": ["C12"]})
         u.bounded_desc = "loops unrolled for two documents over a vocabulary of three features; counts, labels and alpha symbolic"
         return u
@@ -216,6 +216,31 @@ def nb_lemmas(world):
         ax = z3.And(log(c / L1) == log(c) - log(L1), log(c / L2) == log(c) - log(L2))
         return (z3.And(c > 0, L1 > 0, L2 > 0, ax), (odds + log(c / L1)) - (odds + log(c / L2)) == log(L2) - log(L1))
     return [("posterior-probabilities-sum-to-one", normalisation), ("length-term-is-a-constant-shift", length_shift)]
+
+
+def duplication_lemmas(world):
+    """C17, the parts of the duplication argument z3 can carry (log only through its monotonicity, instantiated):
+    with one more positive document the prior odds do not fall, and for a document made of c copies of one
+    feature the smoothed positive likelihood of that feature does not fall.  The general case (several
+    features) needs the convexity of log(1 + 1/x): paper step in DESIGN, assumption A-analysis."""
+    log = world.logf
+    n, N, a, A, c = z3.Reals("n N a A c")
+
+    def mono(x, y):
+        return z3.Implies(z3.And(x > 0, x <= y), log(x) <= log(y))
+
+    def prior():
+        pre = z3.And(n >= 1, N > n, mono(n / N, (n + 1) / (N + 1)), mono((N - n) / (N + 1), (N - n) / N))
+        before = log(n / N) - log((N - n) / N)
+        after = log((n + 1) / (N + 1)) - log((N - n) / (N + 1))
+        return (pre, after >= before)
+
+    def single_feature():
+        # a: smoothed count of the feature in the positive class, A: smoothed total, c >= 1 copies in the document
+        pre = z3.And(a > 0, a <= A, c >= 1, mono(a / A, (a + c) / (A + c)))
+        return (pre, c * log((a + c) / (A + c)) >= c * log(a / A))
+    return [("prior-odds-do-not-fall-with-one-more-positive-document", prior),
+            ("likelihood-of-a-one-feature-document-does-not-fall", single_feature)]
 
 
 class BoundedPipelineUnit:
@@ -265,4 +290,5 @@ class BoundedPipelineUnit:
 
 def units(world):
     return [BoundedPipelineUnit()] + scorer_units(world) + estimator_units(world) + [
-        LemmaUnit("spec.nb.algebra", ["C16", "C09", "C14"], nb_lemmas(world))]
+        LemmaUnit("spec.nb.algebra", ["C16", "C09", "C14"], nb_lemmas(world)),
+        LemmaUnit("spec.nb.duplication", ["C17"], duplication_lemmas(world))]
